@@ -73,6 +73,72 @@ pub fn c15_builder_push_leaf() {
     cover!(lh + 3 <= s.current_height as usize, "several levels completed at once");
 }
 
+fn get_mark(s: &BuilderState, h: u32) -> bool {
+    if h == 128 {
+        s.complete_128
+    } else {
+        (s.complete_heights >> h) & 1 == 1
+    }
+}
+fn set_mark(s: &mut BuilderState, h: u32, v: bool) {
+    if h == 128 {
+        s.complete_128 = v;
+    } else if v {
+        s.complete_heights |= 1u128 << h;
+    } else {
+        s.complete_heights &= !(1u128 << h);
+    }
+}
+
+/// The same reference walk on the packed state, at most `MAXLEV` levels completed by one leaf
+/// (None if more would be completed).
+const MAXLEV: u32 = 24;
+fn ref_push_leaf_shallow(s: BuilderState) -> Option<BuilderState> {
+    let mut t = s;
+    let mut c = s.current_height as u32;
+    let mut n = 0;
+    while n <= MAXLEV {
+        if c == 0 {
+            t.current_height = 0;
+            return Some(t);
+        }
+        if !get_mark(&t, c) {
+            set_mark(&mut t, c, true);
+            t.current_height = c as u8;
+            return Some(t);
+        }
+        set_mark(&mut t, c, false);
+        c -= 1;
+        n += 1;
+    }
+    None
+}
+
+/// Quick-tier version of `c15_builder_push_leaf`: every cursor height 0..=128 and every state, but
+/// a leaf that completes at most MAXLEV = 24 levels at once (the full harness needs 38 min; this one, 2 min, covers
+/// the depth-128 special case and the bitmap arithmetic at every height).
+// @h c15_builder_push_leaf_shallow timeout=1500 mem=8
+#[cfg_attr(kani, kani::proof)]
+#[cfg_attr(kani, kani::unwind(28))]
+pub fn c15_builder_push_leaf_shallow() {
+    let s = BuilderState { complete_heights: any_u128(), complete_128: sym::bool_(), current_height: sym::u8_() };
+    sym::assume(inv(s));
+    let want = ref_push_leaf_shallow(s);
+    sym::assume(want.is_some());
+    let leaf = std::sync::Arc::new(miniscript::Miniscript::<Pk, miniscript::Tap>::TRUE);
+    let (depth, t) = tb::push_leaf::<Pk>(s, leaf);
+    chk!(depth == s.current_height, "a leaf is recorded at the cursor height");
+    if let Some(w) = want {
+        chk!(t.current_height == w.current_height, "cursor height after a leaf differs from the reference tree walk");
+        chk!(t.complete_heights == w.complete_heights && t.complete_128 == w.complete_128, "completed-subtree marks after a leaf differ from the reference tree walk");
+    }
+    chk!(inv(t), "builder invariant is preserved by push_leaf");
+    cover!(s.current_height == 128 && s.complete_128, "second leaf of a pair at depth 128");
+    cover!(s.current_height == 128 && !s.complete_128, "first leaf of a pair at depth 128");
+    cover!(t.current_height + 3 <= s.current_height, "several levels completed at once");
+    cover!(t.current_height == 0 && s.current_height > 0, "tree completed");
+}
+
 // @h c15_builder_push_inner timeout=900 mem=8
 #[cfg_attr(kani, kani::proof)]
 pub fn c15_builder_push_inner() {
